@@ -2,7 +2,7 @@
 use crate::engine::{idx, Ctx, Fail, Stats};
 use crate::gen::sig::{self, HdrS, HttpSigS, OptS, TcpSigS, TtlS, WinS};
 use huginn_net_db::db::FingerprintCollection;
-use huginn_net_db::db_matching_trait::{DatabaseSignature, FingerprintDb};
+use huginn_net_db::db_matching_trait::{DatabaseSignature, FingerprintDb, MatchQuality};
 use huginn_net_db::observable_signals::{HttpRequestObservation, HttpResponseObservation, TcpObservation};
 use huginn_net_db::{http as dh, tcp as dt, Database, Label, Type};
 use proptest::collection::vec;
@@ -11,7 +11,15 @@ use serde::{Deserialize, Serialize};
 use serde_json::json;
 
 /// exhaustive scan in database order: first entry with the strictly smallest distance
-pub fn full_scan<O, S: DatabaseSignature<O>>(entries: &[(Label, Vec<S>)], obs: &O) -> (Option<(usize, usize, u32, f32)>, usize)
+/// the quality that belongs to a distance is read from the protocol's own score table (`MatchQuality::distance_to_score` of the TCP
+/// resp. HTTP quality type), not from the signature's `get_quality_score`, which is the thing under test here
+pub fn tcp_table(d: u32) -> f32 {
+    <dt::TcpMatchQuality as MatchQuality>::distance_to_score(d)
+}
+pub fn http_table(d: u32) -> f32 {
+    <dh::HttpMatchQuality as MatchQuality>::distance_to_score(d)
+}
+pub fn full_scan<O, S: DatabaseSignature<O>>(entries: &[(Label, Vec<S>)], obs: &O, table: fn(u32) -> f32) -> (Option<(usize, usize, u32, f32)>, usize)
 where
     O: huginn_net_db::db_matching_trait::ObservedFingerprint,
 {
@@ -22,7 +30,7 @@ where
             if let Some(d) = s.calculate_distance(obs) {
                 accepting += 1;
                 if best.map(|b| d < b.2).unwrap_or(true) {
-                    best = Some((li, si, d, s.get_quality_score(d)));
+                    best = Some((li, si, d, table(d)));
                 }
             }
         }
@@ -145,7 +153,7 @@ pub fn check_tcp_case(c: &TcpDbCase, st: &mut Stats) -> Result<(), Fail> {
     for o in &c.obs {
         let obs = tcp_observation(c, o);
         st.evals += 1;
-        let (exp, accepting) = full_scan(&coll.entries, &obs);
+        let (exp, accepting) = full_scan(&coll.entries, &obs, tcp_table);
         let wild = exp.map(|(li, si, _, _)| {
             let s = &coll.entries[li].1[si];
             s.version == dt::IpVersion::Any || s.pclass == dt::PayloadSize::Any
@@ -240,8 +248,8 @@ pub fn check_http_case(c: &HttpDbCase, st: &mut Stats) -> Result<(), Fail> {
         st.evals += 1;
         let ro = HttpRequestObservation { version, horder: horder.clone(), habsent: habsent.clone(), expsw: expsw.clone() };
         let so = HttpResponseObservation { version, horder, habsent, expsw };
-        let (exp, accepting) = full_scan(&req.entries, &ro);
-        let (exp2, _) = full_scan(&resp.entries, &so);
+        let (exp, accepting) = full_scan(&req.entries, &ro, http_table);
+        let (exp2, _) = full_scan(&resp.entries, &so, http_table);
         if accepting >= 2 || exp.map(|(li, si, _, _)| req.entries[li].1[si].version == dh::Version::Any).unwrap_or(false) {
             st.nontrivial(&(c, v, hsel, drop, asel, ssel));
         }
@@ -257,6 +265,14 @@ pub fn check_http_case(c: &HttpDbCase, st: &mut Stats) -> Result<(), Fail> {
             _ => "accepting:2+",
         });
         let text = format!("{ro}");
+        if let Some((_, _, d, _)) = exp2 {
+            st.class(match d {
+                0 => "winner-distance:0",
+                1..=3 => "winner-distance:1-3",
+                4..=7 => "winner-distance:4-7",
+                _ => "winner-distance:8+",
+            });
+        }
         compare("http-request", req.find_best_match(&ro), &req.entries, exp, &text)?;
         compare("http-response", resp.find_best_match(&so), &resp.entries, exp2, &text)?;
         let oreq = huginn_net_http::observable::ObservableHttpRequest { matching: ro.clone(), lang: None, user_agent: None, headers: vec![], cookies: vec![], referer: None, method: None, uri: None };
@@ -268,7 +284,7 @@ pub fn check_http_case(c: &HttpDbCase, st: &mut Stats) -> Result<(), Fail> {
 }
 
 pub fn run(ctx: &Ctx) {
-    ctx.assume("the reference scan uses the public calculate_distance / get_quality_score of each entry (the distances themselves are C12's subject)");
+    ctx.assume("the reference scan uses the public calculate_distance of each entry (the distances themselves are C12's subject); the quality that belongs to a distance is read from the protocol's own score table (MatchQuality::distance_to_score of TcpMatchQuality / HttpMatchQuality), never from the signature object under test");
     let n = ctx.tier.pick(25_000, 400_000);
     ctx.run_prop(
         "tcp-generated-databases",
@@ -335,7 +351,7 @@ pub fn run(ctx: &Ctx) {
             }
         }
         st.evals += 1;
-        let (exp, accepting) = full_scan(&coll.entries, &o);
+        let (exp, accepting) = full_scan(&coll.entries, &o, tcp_table);
         if accepting >= 2 {
             st.nontrivial(&i);
         }
@@ -376,7 +392,7 @@ pub fn run(ctx: &Ctx) {
         st.evals += 1;
         if request {
             let o = HttpRequestObservation { version, horder, habsent, expsw };
-            let (exp, accepting) = full_scan(&db.http_request.entries, &o);
+            let (exp, accepting) = full_scan(&db.http_request.entries, &o, http_table);
             if accepting >= 2 {
                 st.nontrivial(&i);
             }
@@ -386,7 +402,7 @@ pub fn run(ctx: &Ctx) {
             }
         } else {
             let o = HttpResponseObservation { version, horder, habsent, expsw };
-            let (exp, accepting) = full_scan(&db.http_response.entries, &o);
+            let (exp, accepting) = full_scan(&db.http_response.entries, &o, http_table);
             if accepting >= 2 {
                 st.nontrivial(&i);
             }
